@@ -245,7 +245,9 @@ class TwoElecKernel:
                     if nparts > 1:
                         sh["part"] = [k, nparts]
                     out.append(sh)
-        out += [dict(l=[0, 0, 0, 0], K=[2, 1, 2, 1], M=[2, 1, 1, 2]), dict(l=[1, 0, 0, 0], K=[1, 2, 1, 1], M=[1, 2, 1, 1]),
+        out += [dict(l=[0, 0, 0, 0], K=[2, 1, 2, 1], M=[2, 1, 1, 2]), dict(l=[0, 0, 0, 0], K=[1, 2, 1, 1], M=[1, 2, 3, 1]),
+                dict(l=[0, 0, 0, 0], K=[1, 1, 1, 1], M=[2, 2, 2, 2]), dict(l=[0, 1, 0, 0], K=[1, 1, 1, 1], M=[1, 3, 2, 1]),
+                dict(l=[1, 0, 0, 0], K=[1, 2, 1, 1], M=[1, 2, 1, 1]),
                 dict(l=[0, 1, 1, 0], K=[1, 1, 1, 2], M=[1, 1, 2, 1], comps="reversed")]
         if tier == "thorough":
             out += [dict(l=[1, 1, 0, 1], K=[2, 1, 1, 2], M=[2, 1, 2, 1]), dict(l=[2, 0, 1, 0], K=[1, 2, 2, 1], M=[1, 1, 1, 2], comps="reversed")]
